@@ -198,8 +198,17 @@ def run(ctx: common.Ctx):
     else:
       for t in gen['xnames']:
         ctx.obligations.append(dict(name=t, kind='theorem', ok=False, detail='module does not build'))
-  ctx.assumptions.append('configuration quantifier of C01 is certified (kernel-checked on the live arrays of the '
-                         'generated grids) and sampled (factory grids), not proved: no Gauss-Legendre theory in Mathlib')
+  t15 = os.path.exists(os.path.join(common.LEAN, 'DinoProofs/Lemmas/FourierOrtho.lean'))
+  if t15:
+    ctx.assumptions.append('configuration quantifier of C01: the LONGITUDE direction is proved for every size over the reals '
+                           '(T1.5: the Fourier Gram matrix under the weight 2 pi / N is the identity iff 2(M-1) < N, and the round '
+                           'trip reduces to the orthonormality of the Legendre tables under the latitude weights alone; tied to '
+                           'the real arrays by the Gram sweep); the LATITUDE direction is certified (kernel-checked on the live '
+                           'arrays of the generated grids) and sampled (factory grids), not proved: no Gauss-Legendre theory in '
+                           'Mathlib')
+  else:
+    ctx.assumptions.append('configuration quantifier of C01 is certified (kernel-checked on the live arrays of the '
+                           'generated grids) and sampled (factory grids), not proved: no Gauss-Legendre theory in Mathlib')
 
   phase('translator+lean+audit')
   rng = ctx.rng
@@ -433,6 +442,7 @@ def run(ctx: common.Ctx):
   # ------------------------------------------------------------------ T1.5: Fourier Gram of the REAL basis arrays, all sizes
   if os.path.exists(os.path.join(common.LEAN, 'DinoProofs/Lemmas/FourierOrtho.lean')):
     probe_fourier_gram(ctx, fourier)
+    probe_factory_resolution(ctx, sh)
   phase('probes')
   # ------------------------------------------------------------------ Hyp: separable Gram criterion on factory grids
   for name in (FACTORY_QUICK if ctx.quick else FACTORY_THOROUGH):
@@ -615,6 +625,33 @@ def probe_fourier_gram(ctx, fourier):
   ctx.obligation('tie:T1.5 Fourier Gram of the real basis arrays', 'hypothesis', ok,
                  f'{n_res} resolved sizes: max |G - 1| = {worst_res:.2e}; {n_alias} aliased sizes: min defect = '
                  f'{min_defect:.3f}; closed form max error {worst_form:.2e}')
+
+
+def probe_factory_resolution(ctx, sh):
+  """what the code's own grid constructors guarantee: every T*/TL* factory grid and `with_wavenumbers` (all three
+  de-aliasing orders) satisfies the resolution condition 2(M-1) < N of T1.5 (the TL* grids with N = 2M, two nodes above
+  the boundary); `Grid(...)` itself validates nothing and `real_basis` only N >= M, which admits aliased sizes"""
+  import re
+  names = sorted(n for n in dir(sh.Grid) if re.fullmatch(r'TL?\d+', n))
+  margins = []
+  for name in names:
+    inp = dict(factory=name)
+    with ctx.impl('factory-grid', inp):
+      g = getattr(sh.Grid, name)()
+      M, N = g.longitude_wavenumbers, g.longitude_nodes
+      margins.append(N - 2 * (M - 1))
+      ctx.expect(2 * (M - 1) < N, 'factory-longitude-resolution',
+                 f'{name}: longitude_nodes = {N} does not resolve longitude_wavenumbers = {M} (needs 2(M-1) < N)', inp)
+      ctx.case(('factory-resolution', name), nontrivial=True)
+  for M in range(1, ctx.n(12, 40)):
+    for dealiasing in ('linear', 'quadratic', 'cubic'):
+      inp = dict(with_wavenumbers=M, dealiasing=dealiasing)
+      with ctx.impl('factory-grid', inp):
+        g = sh.Grid.with_wavenumbers(M, dealiasing=dealiasing)
+        ctx.expect(2 * (g.longitude_wavenumbers - 1) < g.longitude_nodes, 'factory-longitude-resolution',
+                   f'with_wavenumbers({M}, {dealiasing}): N = {g.longitude_nodes} does not resolve M = {M}', inp)
+  ctx.dist['factory-resolution:grids'] += len(names)
+  ctx.notes.append(f'T1.5 resolution margin N - 2(M-1) over {len(names)} factory grids: min {min(margins) if margins else None}')
 
 
 def probe_grid(ctx, jnp, sh, g, cfg, inp0, nspec, units):
